@@ -35,6 +35,20 @@ def queries(tier):
             defs["TWOCTX"] = 1
         qs.append(Query("surv-" + skel.tag(w2), "c07/survey.c", tus=TUS, env=ENV, defs=defs, unwind=10, unwind_rules=KIT_RULES, timeout=300,
                         params={"protocol": "surveyor0", "contexts": 2 if two else 1, "skeleton": w2}))
+    from props import C04
+    RESP_CUR = ["A(0) Q(0,0) R(0,0) S(1,0) T(0,1) Z", "A(0) Q(0,2) R(0,0) S(1,0) Z", "A(0) S(0,0) Z", "A(0) Q(0,0) R(0,0) S(1,0) S(2,0) Z",
+                "A(0) A(1) Q(0,0) Q(1,1) R(0,0) S(1,0) R(2,0) S(3,0) Z", "A(0) Q(0,0) R(0,0) C(0) S(1,0) Z", "A(0) QB(0,0) QB(0,1) Z", "A(0) Q(0,0) C(0) Q(0,1) Z",
+                "A(0) R(0,1) R(1,1)", "A(0) A(1) Q(1,0) R(0,0) S(1,1) T(1,1) Z", "A(0) Q(0,7) R(0,0) S(1,0) Z", "A(0) G(0,1) S(0,0) G(0,0) S(1,0) T(0,1) T(0,1) Z",
+                "A(0) G(0,15) S(0,0) Z", "A(0) A(1) G(0,1) G(1,2) S(0,0) Z", "A(0) R(0,1) Q(0,1) S(1,0) Z", "A(0) G(0,0) S(0,0) S(1,0) Z"]
+    RESP_ALPHA = ["A(0)", "A(1)", "Q(0,0)", "Q(0,1)", "G(0,1)", "QB(0,0)", "R(%d,0)", "R(%d,1)", "S(%d,0)", "T(0,1)", "C(0)"]
+    rw = list(RESP_CUR) + skel.enumerate_words(RESP_ALPHA, 4 if tier == "quick" else 5, first=["A(0)"], limit=80 if tier == "quick" else 3000)
+    seen = set()
+    for w in rw:
+        if w in seen:
+            continue
+        seen.add(w)
+        qs.append(Query("resp-" + skel.tag(w), "c07/respond.c", tus=TUS, env=ENV, defs={"SKEL": w}, cdefs=["-DENV_MSG_CAP=48"], unwind=12,
+                        unwind_rules=KIT_RULES, timeout=300, params={"protocol": "respondent0", "skeleton": w}))
     return qs
 
 MANIFEST = {
